@@ -1,10 +1,10 @@
 SPECIFICATION Spec
 CONSTANTS
-  RFlags = {0, 1, 2, 3, 4, 9}
-  RYs = {4, 8, 12}
-  RWs = {1, 4}
-  RPs = {0, 2}
-  RMod = 3
+  RFlags = {0, 1, 3, 4, 9}
+  RYs = {4, 12}
+  RWs = {1}
+  RPs = {2}
+  RMod = 1
 INVARIANT NeverReportedWhereResolved
 INVARIANT EmitInv
 CHECK_DEADLOCK FALSE
